@@ -2767,6 +2767,312 @@ impl CountN for Ctx {
     }
 }
 
+// ------------------------------------------------------------------ FLOAT stream
+//
+// Two input classes whose trouble is rounding, not size or shape:
+// (a) INEXACT f64 WEIGHTS (k/997, tenths, thirds, random doubles …) with ZERO-weight elements at the
+//     ends of the curve / at random places and a part count of n/2 … 2n: running sums that go up
+//     and come back down (`(a+b+c)-c-b-a`) need not return to the exact value, so any code that
+//     believes "a prefix minus the parts it contains is >= 0" / "a prefix is <= the total" breaks;
+// (b) points in the f32 SUBNORMAL range (Rcb / Rib convert to f32; halving an odd subnormal is
+//     inexact): zero-width axes at an odd multiple of 2^-149, coincident points, adjacent
+//     subnormals, spread subnormal lattices, the normal/subnormal border, decimal literals such
+//     as 1e-44 — for every partitioner that takes points.
+// The oracle is the ordinary one (no panic, no hang, ids in range). The stream draws from its own
+// generator (derived from the run's seed), so the other streams see the same numbers as before.
+
+const INEXACT_KINDS: [&str; 7] = ["k/997", "tenths", "thirds", "unit-doubles", "wide-doubles", "all-0.1", "near-third"];
+const ZERO_PLACES: [&str; 6] = ["low", "low", "high", "ends", "random", "none"];
+/// non-dyadic factors for `wscale` (integer weights as written, so the model predicts the case)
+const INEXACT_SCALES: [&str; 6] = ["0.1", "0.001003009027081244", "0.3333333333333333", "0.7", "1e-3", "1.1"];
+
+fn gen_inexact_weights(rng: &mut Rng, n: usize, kind: &str) -> Vec<f64> {
+    let unit = |rng: &mut Rng| ((rng.next() >> 11) + 1) as f64 / (1u64 << 53) as f64;
+    (0..n)
+        .map(|_| match kind {
+            "k/997" => rng.range(1, 999) as f64 / 997.0,
+            "tenths" => rng.range(1, 99) as f64 * 0.1,
+            "thirds" => rng.range(1, 30) as f64 / 3.0,
+            "unit-doubles" => unit(rng),
+            "wide-doubles" => unit(rng) * 2f64.powi(rng.range(-30, 30) as i32),
+            "all-0.1" => 0.1,
+            _ => 1.0 / 3.0 + rng.range(0, 8) as f64 * f64::EPSILON,
+        })
+        .collect()
+}
+
+/// Zero weights at the low end / high end / both ends of `order` (element numbers in ascending
+/// order of the key the algorithm sorts by), at random places, or nowhere. The total stays positive.
+fn place_zeros<T: Copy + PartialEq + Default>(rng: &mut Rng, w: &mut [T], order: &[usize], place: &str, keep: T) {
+    let n = w.len();
+    if n < 2 || order.len() != n {
+        return;
+    }
+    let k = 1 + rng.usize((n / 3).max(1));
+    match place {
+        "low" => order.iter().take(k).for_each(|&i| w[i] = T::default()),
+        "high" => order.iter().rev().take(k).for_each(|&i| w[i] = T::default()),
+        "ends" => {
+            order.iter().take(k).for_each(|&i| w[i] = T::default());
+            order.iter().rev().take(1 + rng.usize(k)).for_each(|&i| w[i] = T::default());
+        }
+        "random" => {
+            for i in 0..n {
+                if rng.chance(1, 5) {
+                    w[i] = T::default();
+                }
+            }
+            w[rng.usize(n)] = T::default();
+        }
+        _ => {}
+    }
+    if w.iter().all(|x| *x == T::default()) {
+        w[order[n / 2]] = keep;
+    }
+}
+
+/// element numbers in ascending order of `key`
+fn order_by<K: PartialOrd>(key: &[K]) -> Vec<usize> {
+    let mut o: Vec<usize> = (0..key.len()).collect();
+    o.sort_by(|&a, &b| key[a].partial_cmp(&key[b]).unwrap_or(std::cmp::Ordering::Equal));
+    o
+}
+
+/// a part count between n/2 and 2n+1
+fn parts_about(rng: &mut Rng, n: usize) -> usize {
+    (n / 2).max(1) + rng.usize(n + n / 2 + 2)
+}
+
+/// (a) for HilbertCurve: tiny inputs, low orders, zero weights at the ends of the curve.
+fn inexact_hilbert(ctx: &mut Ctx, ts: &[usize]) {
+    let dim = 2 + ctx.rng.usize(2);
+    let n = if ctx.rng.chance(3, 4) { 3 + ctx.rng.usize(12) } else { 15 + ctx.rng.usize(40) };
+    let pm = *ctx.rng.pick(&["uniform", "uniform", "duplicates", "collinear", "clustered", "lattice", "wide"]);
+    let pts = gen_points(&mut ctx.rng, dim, n, pm);
+    let parts = if ctx.rng.chance(1, 8) { gen_parts(ctx, n) } else { parts_about(&mut ctx.rng, n) };
+    let max = if dim == 2 { 32u32 } else { 21 };
+    let order = (*ctx.rng.pick(&[1u32, 2, 2, 3, 4, 6, 8, 12, 12, 32])).min(max);
+    // the curve order of the points, as the implementation computes it (read-only hook)
+    let p2 = pts.clone();
+    let idx: Vec<u64> = match catch(move || {
+        if dim == 2 {
+            coupe::verif::hilbert::indices_2d(&points!(2, p2), order as usize)
+        } else {
+            coupe::verif::hilbert::indices_3d(&points!(3, p2), order as usize)
+        }
+    }) {
+        Caught::Ok(v) if v.len() == n => v,
+        _ => (0..n as u64).collect(),
+    };
+    let ord = order_by(&idx);
+    let place = *ctx.rng.pick(&ZERO_PLACES);
+    ctx.count(&format!("float:hilbert:zeros-{}", place));
+    if ctx.rng.chance(1, 4) {
+        // integer weights as written, a non-dyadic unit through `wscale`
+        let mut w: Vec<i64> = (0..n).map(|_| ctx.rng.range(1, 999)).collect();
+        place_zeros(&mut ctx.rng, &mut w, &ord, place, 7);
+        let spec = *ctx.rng.pick(&INEXACT_SCALES);
+        ctx.count("float:hilbert:inexact-unit");
+        let case = Case::Hilbert { dim, parts, order, pts, w: as_f(&w) };
+        run_op(ctx, &format!("wscale {} {}", spec, case.format(ts, None)));
+    } else {
+        let kind = *ctx.rng.pick(&INEXACT_KINDS);
+        let mut w = gen_inexact_weights(&mut ctx.rng, n, kind);
+        place_zeros(&mut ctx.rng, &mut w, &ord, place, 0.1);
+        ctx.count(&format!("float:hilbert:{}", kind));
+        emit(ctx, &Case::Hilbert { dim, parts, order, pts, w }, ts);
+    }
+}
+
+/// (a) for the other algorithms taking f64 weights (Rcb, Rib, MultiJagged, Greedy, Grid).
+fn inexact_other(ctx: &mut Ctx, which: usize, ts: &[usize]) {
+    let n = if ctx.rng.chance(2, 3) { 3 + ctx.rng.usize(14) } else { 17 + ctx.rng.usize(80) };
+    let mut case = random_case(ctx, which, n, false);
+    let cells = case.n();
+    let kind = *ctx.rng.pick(&INEXACT_KINDS);
+    let mut w = gen_inexact_weights(&mut ctx.rng, cells, kind);
+    // zero weights at the ends of the first axis (points) / of the sequence
+    let ord = match &case {
+        Case::Bisect { dim, pts, .. } | Case::Mj { dim, pts, .. } => {
+            order_by(&pts.chunks(*dim).map(|c| c[0]).collect::<Vec<f64>>())
+        }
+        _ => (0..cells).collect(),
+    };
+    let place = *ctx.rng.pick(&ZERO_PLACES);
+    place_zeros(&mut ctx.rng, &mut w, &ord, place, 0.1);
+    let about = parts_about(&mut ctx.rng, cells);
+    match &mut case {
+        Case::Mj { parts, .. } | Case::Greedy { parts, .. } => *parts = about,
+        Case::Bisect { iter, .. } | Case::Grid { iter, .. } => {
+            // 2^iter between n/2 and 4n
+            let lg = (usize::BITS - cells.max(1).leading_zeros()) as usize;
+            *iter = (lg + ctx.rng.usize(3)).saturating_sub(1).min(8);
+        }
+        _ => {}
+    }
+    set_f_weights(&mut case, w);
+    ctx.count(&format!("float:inexact:{}", case.algo()));
+    emit(ctx, &case, ts);
+}
+
+const F32_SUB_MODES: [&str; 8] =
+    ["line", "coincident", "lattice", "decimal-line", "adjacent", "min-normal-edge", "signed", "mixed-scale"];
+
+/// `n` points of dimension `dim` in the f32 subnormal range (|x| < 2^-126; every multiple of
+/// 2^-149 is exact in f64 and converts exactly). All finite, inside the contract.
+fn gen_points_f32_sub(rng: &mut Rng, dim: usize, n: usize, mode: &str) -> Vec<f64> {
+    let u = 2f64.powi(-149);
+    // an odd significand: tiny, anywhere in the subnormal range, just below the smallest normal
+    let odd = |rng: &mut Rng| -> f64 {
+        let k = match rng.usize(4) {
+            0 => 1 + 2 * rng.range(0, 7),
+            1 => 1 + 2 * rng.range(0, (1 << 22) - 1),
+            2 => (1 << 23) - 1 - 2 * rng.range(0, 3),
+            _ => rng.range(1, (1 << 23) - 1),
+        };
+        let s = if rng.chance(1, 4) { -1.0 } else { 1.0 };
+        s * k as f64 * u
+    };
+    let mut v = Vec::with_capacity(n * dim);
+    match mode {
+        "line" => {
+            // one (or two) axes of zero width at an odd subnormal; the others spread, in the
+            // subnormal range or in the ordinary one
+            let a = rng.usize(dim);
+            let b = if rng.chance(1, 3) { rng.usize(dim) } else { a };
+            let shared: Vec<f64> = (0..dim).map(|_| odd(rng)).collect();
+            let sub = rng.chance(1, 2);
+            let rep = rng.chance(1, 3);
+            for _ in 0..n {
+                for i in 0..dim {
+                    if i == a || (i == b && dim == 3) {
+                        v.push(shared[i]);
+                    } else if sub {
+                        v.push(rng.range(0, if rep { 3 } else { 60 }) as f64 * u);
+                    } else {
+                        v.push(frac(rng, -100, 100));
+                    }
+                }
+            }
+        }
+        "coincident" => {
+            let mut p: Vec<f64> = (0..dim)
+                .map(|_| match rng.usize(4) {
+                    0 => 0.0,
+                    1 => frac(rng, -5, 5),
+                    _ => odd(rng),
+                })
+                .collect();
+            let a = rng.usize(dim);
+            p[a] = odd(rng);
+            for _ in 0..n {
+                v.extend_from_slice(&p);
+            }
+        }
+        "lattice" => {
+            let side = 1 + rng.range(1, 7);
+            let step = *rng.pick(&[1.0, 1.0, 3.0, 1000.0, 1048576.0]);
+            let org = if rng.chance(1, 2) { 0.0 } else { rng.range(-9, 9) as f64 * u };
+            for _ in 0..n * dim {
+                v.push(org + rng.range(0, side) as f64 * step * u);
+            }
+        }
+        "decimal-line" => {
+            // decimal literals: not multiples of 2^-149 as f64, rounded by the conversion
+            let lits = [1e-44, 4.2e-45, 1e-45, 7e-45, 9.8e-45, 1e-40, 5e-39, 1.1e-38, -1e-44, -4.2e-45, 1.4e-45, 2.1e-45];
+            let a = rng.usize(dim);
+            let x = *rng.pick(&lits);
+            let unit = *rng.pick(&[1e-44, 1e-45, 3e-42, 1.0]);
+            for _ in 0..n {
+                for i in 0..dim {
+                    v.push(if i == a { x } else { rng.range(-8, 8) as f64 * unit });
+                }
+            }
+        }
+        "adjacent" => {
+            // two sites per axis, neighbouring subnormals (sometimes one site: zero width)
+            let base: Vec<i64> = (0..dim).map(|_| rng.range(0, (1 << 23) - 2)).collect();
+            let wide: Vec<i64> = (0..dim).map(|_| rng.range(0, 2)).collect();
+            for _ in 0..n {
+                for i in 0..dim {
+                    v.push((base[i] + rng.range(0, wide[i])) as f64 * u);
+                }
+            }
+        }
+        "min-normal-edge" => {
+            for _ in 0..n * dim {
+                v.push(((1i64 << 23) + rng.range(-3, 3)) as f64 * u);
+            }
+        }
+        "signed" => {
+            for _ in 0..n * dim {
+                v.push(rng.range(-5, 5) as f64 * u);
+            }
+        }
+        _ => {
+            // "mixed-scale": one axis of zero width at an odd subnormal, one far below f32 (all
+            // +-0 after the conversion), the third ordinary
+            let x = odd(rng);
+            for _ in 0..n {
+                for i in 0..dim {
+                    v.push(match i {
+                        0 => x,
+                        1 => rng.range(-9, 9) as f64 * 1e-300,
+                        _ => frac(rng, -10, 10),
+                    });
+                }
+            }
+        }
+    }
+    v
+}
+
+/// (b) every partitioner that takes points on point sets in the f32 subnormal range.
+fn f32_subnormal_points(ctx: &mut Ctx, which: usize, mode: &str, ts: &[usize]) {
+    let n = if ctx.rng.chance(2, 3) { 2 + ctx.rng.usize(14) } else { 16 + ctx.rng.usize(120) };
+    let mut case = random_case(ctx, which, n.max(3), false);
+    match &mut case {
+        Case::Bisect { dim, pts, iter, .. } => {
+            *pts = gen_points_f32_sub(&mut ctx.rng, *dim, n.max(3), mode);
+            *iter = 1 + ctx.rng.usize(5);
+        }
+        Case::Hilbert { dim, pts, .. } | Case::ZCurve { dim, pts, .. } | Case::Mj { dim, pts, .. } => {
+            *pts = gen_points_f32_sub(&mut ctx.rng, *dim, n.max(3), mode);
+        }
+        _ => {}
+    }
+    ctx.count(&format!("float:f32-subnormal:{}", mode));
+    ctx.count(&format!("float:f32-subnormal@{}", case.algo()));
+    emit(ctx, &case, ts);
+}
+
+fn float_stream(ctx: &mut Ctx) {
+    let own = Rng::new(ctx.seed ^ 0xC01F_10A7_5EED_0001);
+    let saved = std::mem::replace(&mut ctx.rng, own);
+    let t1: [usize; 1] = [1];
+    let t13: [usize; 2] = [1, 3];
+    let t4: [usize; 4] = [1, 2, 3, 16];
+    // (a) HilbertCurve: the bulk on one thread (the trigger is arithmetic), every 16th under four pools
+    let bulk = ctx.budget(6000, 40_000);
+    for i in 0..bulk {
+        inexact_hilbert(ctx, if i % 16 == 0 { &t4 } else { &t1 });
+    }
+    for i in 0..ctx.budget(60, 600) {
+        for which in [0usize, 1, 4, 5, 8] {
+            inexact_other(ctx, which, if i % 4 == 0 { &t4 } else { &t13 });
+        }
+    }
+    // (b) the f32 subnormal range: Rcb / Rib (the f32 readers) more often than the f64 readers
+    for i in 0..ctx.budget(6, 40) {
+        for mode in F32_SUB_MODES {
+            for which in [0usize, 0, 1, 1, 2, 3, 4] {
+                f32_subnormal_points(ctx, which, mode, if i % 3 == 0 { &t4 } else { &t13 });
+            }
+        }
+    }
+    ctx.rng = saved;
+}
+
 pub fn generate(ctx: &mut Ctx) {
     let ts: Vec<usize> = if ctx.quick() { vec![1, 2, 3, 16] } else { (1..=16).collect() };
     ctx.notes.push(format!(
@@ -2777,6 +3083,10 @@ pub fn generate(ctx: &mut Ctx) {
 
     // 1. the enumerated corners
     corners(ctx, &ts);
+
+    // 1b. FLOAT stream: inexact f64 weights with zero-weight elements and about as many parts as
+    //     elements; point sets in the f32 subnormal range (own generator, see float_stream)
+    float_stream(ctx);
 
     // 2. random cases, every algorithm in turn (ten kinds)
     let per_algo = ctx.budget(100, 800);
